@@ -21,7 +21,10 @@ EXTENDS Grouping, Json, FiniteSetsExt
 CONSTANTS NWG, KS        \* KS: sequence, KS[n] = largest set size on n wires
 VARIABLES c, done, bad
 
-Cases == UNION {{[n |-> n, s |-> s] : s \in UNION {kSubset(k, 0..(4^n - 1)) : k \in 0..KS[n]}} : n \in 1..NWG}
+\* (kSubset's implementation is limited to base sets of fewer than 64 elements)
+SubsetsOfSize(k, S) == CASE k = 0 -> {{}} [] k = 1 -> {{x} : x \in S} [] k = 2 -> {{x, y} : x \in S, y \in S} \ {{x} : x \in S}
+                         [] OTHER -> kSubset(k, S)
+Cases == UNION {{[n |-> n, s |-> s] : s \in UNION {SubsetsOfSize(k, 0..(4^n - 1)) : k \in 0..KS[n]}} : n \in 1..NWG}
 Init == c \in Cases /\ done = FALSE /\ bad = ""
 
 Types == <<"qwc", "commuting", "anticommuting">>
